@@ -163,7 +163,7 @@ def run_guard(shard, spec):
         if ci % spec['of'] != spec['shard']:
             continue
         for ti, tgt in enumerate(TARGETS):
-            for variant in range(2):
+            for variant in range(2 if ti else 8):
                 rng = shard.rng('guard', ci, ti, variant)
                 d = rng.choice([0, 1, 0x7F, 0x80, 0xFF]) if variant else 0
                 ds = d - 256 if d > 127 else d
@@ -204,11 +204,24 @@ def run_guard(shard, spec):
                 regs[29] = 0
                 if variant and (b[0] in (0xED,) and b[1] & 0xF4 == 0xB0):
                     regs[2], regs[3] = 0, 2       # repeating block instruction: BC=2
+                if variant >= 2:
+                    # arithmetic boundary states (range of every register after the step), and placements at the top
+                    # of memory (PC must wrap to 0..65535)
+                    fillv = [0xFF, 0x80, 0x00, 0x01, 0x7F, 0xFF][variant - 2]
+                    for i in range(24):
+                        if i not in (12, 13):
+                            regs[i] = fillv
+                    regs[12] = [0xFFFF, 0x8000, 0x0000, 0x0001, 0x7FFF, 0xFFFE][variant - 2]
+                    if variant == 5:
+                        regs[6], regs[7], regs[2], regs[3] = 0xFF, 0xFF, 0x00, 0x01      # HL=0xFFFF, BC=1: sum exactly 65536
+                    addr = [0x8000, 0x8000, 65534, 65533, 65532, 65535][variant - 2]
+                    regs[24] = addr
                 for kind in kinds:
                     m = machine(kind)
                     mem = m.sim.memory
                     for i, x in enumerate(b[:6]):
-                        mem[addr + i] = x
+                        if (addr + i) & 0xFFFF >= 0x4000:
+                            mem[(addr + i) & 0xFFFF] = x
                     if kind in ('py', 'pycmio'):
                         mem.log.clear()
                     sims.set_regs(m.sim, regs)
@@ -246,7 +259,7 @@ def run_guard(shard, spec):
                         for a in range(0x4000):
                             mem[a] = rom[a]
                     # undo RAM changes: rebuild RAM cells touched around the targets and the code
-                    for a in set([addr + i for i in range(6)] + [(t + k) & 0xFFFF for t in (tgt, (tgt - ds) & 0xFFFF, regs[12]) for k in range(-3, 4)]):
+                    for a in set([(addr + i) & 0xFFFF for i in range(6)] + [(t + k) & 0xFFFF for t in (tgt, (tgt - ds) & 0xFFFF, regs[12]) for k in range(-3, 4)]):
                         if a >= 0x4000:
                             mem[a] = 0
                     if kind in ('py', 'pycmio'):
